@@ -83,6 +83,39 @@ def alias_of(name):
     return os.path.splitext(os.path.basename(name))[0].replace('.gz', '').replace('.bc', '')
 
 
+def sphere(L, k):
+    import math
+    return sum(math.comb(L, d) * 4 ** d for d in range(0, min(k, L) + 1))
+
+
+def n_items(bcs, k):
+    """number of (instance, (distance, origin)) items expand appends; the association-list model is quadratic in it"""
+    return sum(sphere(len(b), k) for b in set(bcs))
+
+
+def par_model(mode, inputs, costs=None, workers=8):
+    """fw.run_model over several processes (inputs are independent), balanced by estimated cost"""
+    from concurrent.futures import ThreadPoolExecutor
+    if not inputs:
+        return []
+    costs = costs or [1] * len(inputs)
+    order = sorted(range(len(inputs)), key=lambda i: -costs[i])
+    bins = [[0, []] for _ in range(min(workers, len(inputs)))]
+    for i in order:
+        b = min(bins, key=lambda x: x[0])
+        b[0] += costs[i] + 1
+        b[1].append(i)
+    out = [None] * len(inputs)
+
+    def work(b):
+        r = fw.run_model('C03', mode, [inputs[i] for i in b[1]])
+        for i, v in zip(b[1], r):
+            out[i] = v
+    with ThreadPoolExecutor(max_workers=len(bins)) as ex:
+        list(ex.map(work, bins))
+    return out
+
+
 class IndexTable:
     """abstraction of cell indices to integers: digit tokens -> int, other tokens -> BIG + rank"""
     def __init__(self):
@@ -221,11 +254,14 @@ class Prop(fw.PropBase):
             r.shuffle(qs)       # the query order matters only for the lazy state machine
         return qs, exhaustive
 
+    def cap(self):
+        return 5000 if self.tier == 'quick' else 14000
+
     def make_groups(self):
         quick = self.tier == 'quick'
         r = self.rng
         groups, cases = [], []
-        n_groups = 30 if quick else 160
+        n_groups = 40 if quick else 160
         exh = 4 if quick else 5
         for gi in range(n_groups):
             k = r.choice([0, 1, 1, 2, 2, 2, 3] if gi % 5 else [0, 1, 2])
@@ -236,7 +272,7 @@ class Prop(fw.PropBase):
                 big = (r.random() < 0.2)
                 if big:
                     L = r.choice([6, 8, 8, 10, 12, 16])
-                    n = r.randint(2, 48 if k <= 1 else 16)
+                    n = r.randint(2, max(2, min(48, self.cap() // sphere(L, k))))
                 else:
                     L = r.choice([1, 2, 3, 3, 4, 4, 4] + ([5, 5] if not quick else []))
                     n = r.randint(1, 9)
@@ -246,8 +282,6 @@ class Prop(fw.PropBase):
                 bcs = self.gen_whitelist(L, n, flavour)
                 tab = IndexTable()
                 suffix, gz, content, lines, fmt = self.render(bcs, tab)
-                if flavour == 'nonwf' and fmt == 'barcode_first':
-                    pass    # X is accepted by the column detection ('ATCGNX'); fine
                 alias = 'w%d_%d' % (gi, ai)
                 files.append({'name': alias + suffix, 'content': content, 'gz': gz})
                 qs, exhaustive = self.queries_for(bcs, k, exh if L <= exh else 0)
@@ -260,11 +294,11 @@ class Prop(fw.PropBase):
             lazy = None if mode == 'eager' else ('*' if mode == 'star' else [a for a in aliases if r.random() < 0.5])
             for c in percase:
                 c['lazy'] = (lazy == '*') or (isinstance(lazy, list) and c['alias'] in lazy)
-                c['src'] = ('groups', gi, len(cases) - sum(1 for x in cases if x['src'][1] != gi and False))
             for ai, c in enumerate(percase):
                 c['src'] = ('groups', gi, ai)
                 cases.append(c)
-            groups.append({'k': k, 'lazy': lazy, 'files': files, 'queries': queries})
+            groups.append({'k': k, 'lazy': lazy, 'files': files, 'queries': queries,
+                           'dump': [c['alias'] for c in percase if n_items([b for b, _ in c['lines']], k) <= 3000]})
         return groups, cases
 
     def make_api(self):
@@ -304,7 +338,8 @@ class Prop(fw.PropBase):
                     continue
             usable = sorted(a for a, raw in parsed.items() if raw)
             if quick:
-                pick = r.sample(usable, 2)
+                small = [a for a in usable if n_items([b for b, _ in parsed[a]], 1) <= self.cap()]
+                pick = [r.choice(small or usable), r.choice(usable)]
                 plan.append((d, 1, '*', pick, parsed))
                 plan.append((d, 2, '*', pick[:1], parsed))
             else:
@@ -339,7 +374,7 @@ class Prop(fw.PropBase):
                 cases.append({'alias': a, 'lines': lines, 'k': k, 'queries': qs, 'tab': tab, 'lazy': lazy == '*',
                               'fmt': 'shipped:' + d, 'gz': False, 'flavour': 'shipped', 'exhaustive': False,
                               'kind': 'shipped', 'src': ('shipped', si, ai),
-                              'model': k <= 1 and len(lines) <= 400})
+                              'model': n_items(bcs, k) <= (self.cap() if quick else 14000)})
             shipped.append({'dir': d, 'k': k, 'lazy': lazy, 'queries': queries})
         return shipped, cases
 
@@ -478,7 +513,7 @@ class Prop(fw.PropBase):
             return
         # --- model vs implementation
         mcases = [c for c in cases if c.get('model', True)]
-        mout = fw.run_model('C03', 0, [self.model_input(c) for c in mcases])
+        mout = par_model(0, [self.model_input(c) for c in mcases], [n_items([b for b, _ in c['lines']], c['k']) ** 2 // 1000 + len(c['queries']) for c in mcases])
         dis, pairs2 = [], []
         validated = 0
         for c, mo in zip(mcases, mout):
@@ -504,7 +539,7 @@ class Prop(fw.PropBase):
             inp = [[[b, i] for b, i in c['lines']], c['k'], [c['queries'][j] for j in idx], 0]
             spec_in.append([inp, [ci[j] for j in idx]])
             spec_meta.append((c, idx))
-        spec_out = fw.run_model('C03', 2, spec_in) if spec_in else []
+        spec_out = par_model(2, spec_in, [len(x[0][0]) * len(x[1]) for x in spec_in])
         spec_fail = []
         n_spec = 0
         for (c, idx), so in zip(spec_meta, spec_out):
@@ -512,6 +547,30 @@ class Prop(fw.PropBase):
                 n_spec += 1
                 if ok != 1:
                     spec_fail.append((c, c['queries'][j]))
+        # --- the tables themselves (exact and extended) as finite maps, after the queries (so after a lazy load)
+        tcases, tin = [], []
+        for c in mcases:
+            kind, i, j = c['src']
+            tb = res[kind][i].get('tables', {}).get(c['alias']) if isinstance(res[kind][i], dict) else None
+            if tb is not None:
+                tcases.append((c, tb))
+                tin.append([[[b, x] for b, x in c['lines']], c['k']])
+        tout = par_model(4, tin, [n_items([b for b, _ in c['lines']], c['k']) ** 2 // 1000 + 1 for c, _ in tcases])
+        tdis = []
+        for (c, tb), mo in zip(tcases, tout):
+            if 'error' in tb or len(mo) != 2:
+                tdis.append({'case': c, 'model': mo, 'impl': tb})
+                continue
+            me = sorted([fw.as_str(k), v] for k, v in mo[0])
+            mx = sorted([fw.as_str(k), [h[0], fw.as_str(h[1]), h[2]]] for k, h in mo[1])
+            ie = sorted([k, c['tab'].of_impl(v)] for k, v in tb['exact'])
+            ix = sorted([k, [c['tab'].of_impl(h[0]), h[1], h[2]]] for k, h in tb['extended'])
+            if me != ie or mx != ix:
+                dx = [x for x in ix if x not in mx][:3] + [x for x in mx if x not in ix][:3]
+                tdis.append({'case': c, 'exact_equal': me == ie, 'extended_diff_sample': dx})
+        self.cov['tables_compared'] = len(tcases)
+        self.cov['table_entries_compared'] = sum(len(tb.get('exact', [])) + len(tb.get('extended', [])) for _, tb in tcases)
+        self.cov['table_disagreements'] = len(tdis)
         # --- hamming_circle as a sorted list
         mc = fw.run_model('C03', 3, [[s, n] for s, n in circle])
         cdis = []
@@ -524,7 +583,8 @@ class Prop(fw.PropBase):
         self.cov['disagreements'] = len(dis) + len(cdis)
         self.cov['whitelists_through_model'] = len(mcases)
         # --- vm_compute cross-check of the extracted binary on 100 small inputs
-        small = [(c, mo) for c, mo in zip(mcases, mout) if len(c['lines']) <= 6 and max([len(b) for b, _ in c['lines']] + [0]) <= 4]
+        small = [(c, mo) for c, mo in zip(mcases, mout) if len(c['lines']) <= 8 and max([len(b) for b, _ in c['lines']] + [0]) <= 5
+                 and c['kind'] != 'shipped']
         self.rng.shuffle(small)
         pairs = []
         for c, mo in small[:100]:
@@ -537,11 +597,16 @@ class Prop(fw.PropBase):
         self.cov['vm_compute_crosscheck'] = {'cases': len(pairs), 'mismatches': nm}
         if not ok:
             raise fw.Broken('extraction', 'vm_compute and extracted model disagree: ' + log[-800:])
+        if tdis and not (dis or cdis or spec_fail or oracle_dis):
+            d = tdis[0]
+            raise fw.Broken('correspondence', 'the exact/extended tables differ from the model on %d whitelists although every lookup '
+                            'agrees (internal state only); first: whitelist %r k=%d: %r' % (len(tdis), d['case']['lines'][:8], d['case']['k'],
+                                                                                      {k: v for k, v in d.items() if k != 'case'}))
         if dis or cdis or spec_fail or oracle_dis:
             self.dis, self.cdis = dis, cdis
             first = None
             if dis:
-                d = dis[0]
+                d = min(dis, key=lambda x: (len(x['case']['lines']), len(x['q'] or '')))
                 first = 'lookup(%r) on whitelist %r k=%d lazy=%s (%s): model %r, implementation %r' % (
                     d['q'], d['case']['lines'][:8], d['case']['k'], d['case']['lazy'], d['case']['fmt'], d['model'], d['impl'])
             elif cdis:
@@ -623,7 +688,7 @@ class Prop(fw.PropBase):
         try:
             if not bad_on([lines])[0]:
                 return c['lines'], k        # only reproducible through the file / lazy path
-            for _ in range(12):
+            for _ in range(8):
                 cands = [lines[:i] + lines[i + 1:] for i in range(len(lines))]
                 if not cands:
                     break
